@@ -138,6 +138,22 @@ type World struct {
 	policyPath    string
 	deferred      []func() // environment actions that follow the current step
 	hung          bool     // a scenario step did not return within the watchdog
+	hooks         map[string]func()
+}
+
+func (w *World) hookOf(name string) func() {
+	w.mu.Lock()
+	defer w.mu.Unlock()
+	return w.hooks[name]
+}
+
+func (w *World) setHook(name string, f func()) {
+	w.mu.Lock()
+	defer w.mu.Unlock()
+	if w.hooks == nil {
+		w.hooks = map[string]func(){}
+	}
+	w.hooks[name] = f
 }
 
 type WorldCfg struct {
@@ -905,6 +921,9 @@ func (w *World) runDeferred() {
 	w.deferred = nil
 }
 func (l *simLN) CanSpend(amountMsat uint64) error {
+	if h := l.w.hookOf("canspend"); h != nil {
+		h() // a Lightning RPC takes its time: the harness may hold the caller here
+	}
 	if f := l.w.fault("canspend"); f != "" {
 		return errors.New("sim canspend: " + f)
 	}
@@ -936,6 +955,9 @@ func (l *simLN) SpendableMsat(scid string) (uint64, error) {
 func (l *simLN) ReceivableMsat(scid string) (uint64, error) {
 	if l.w.dead {
 		return 0, errDead
+	}
+	if h := l.w.hookOf("receivable"); h != nil {
+		h()
 	}
 	if f := l.w.fault("receivable"); f != "" {
 		return 0, errors.New("sim receivable: " + f)
